@@ -7,7 +7,7 @@ The harness bodies are in /verif/harness/<module>.rs and are compiled INTO the f
 
 class H:
     def __init__(self, name, props, what, bounds, tier="quick", expect="pass", build="alloc", mode="merged",
-                 stubs=False, timeout=600, timeout_thorough=None, twin_desc=None, nonterm=False):
+                 stubs=False, timeout=600, timeout_thorough=None, twin_desc=None, nonterm=False, cbmc_args=(), mem=None):
         self.name = name
         self.props = props
         self.what = what
@@ -21,12 +21,15 @@ class H:
         self.timeout_thorough = timeout_thorough or timeout
         self.twin_desc = twin_desc
         self.nonterm = nonterm        # an unwinding-assertion failure is itself the finding (termination oracle)
+        self.cbmc_args = tuple(cbmc_args)  # extra CBMC options (e.g. field-sensitivity threshold for the 128-byte directory window)
+        # peak resident memory of the cbmc process in GB (measured, rounded up); the driver limits concurrency with it
+        self.mem = mem if mem is not None else (6 if "::ops::" in name else 5 if ("::lnb_" in name or "::alias_" in name or "eq_case" in name) else 2)
 
     def key(self):
         return self.name + "@" + self.build
 
     def group(self):
-        return (self.build, self.mode, self.stubs)
+        return (self.build, self.mode, self.stubs, self.cbmc_args)
 
     def timeout_for(self, tier):
         return self.timeout_thorough if tier == "thorough" else self.timeout
@@ -82,7 +85,7 @@ add(
       "validate()==Ok implies the independent u64 coherence predicate (sector/cluster powers of two, non-zero FATs, "
       "regions fit without 32-bit wrap, FAT width = f(cluster count), FAT32 root cluster in range, fsinfo/backup in reserved area)",
       "every value of every BPB field"),
-    H("boot_sector::verif::bpb_geometry_agrees", ["C07", "C20"],
+    H("boot_sector::verif::bpb_geometry_agrees", ["C07", "C20", "C04", "C11"],
       "for accepted BPBs root_dir_sectors/first_data_sector/total_clusters/cluster_size/FatType::from_clusters equal the u64 reference parse",
       "every accepted BPB"),
     twin("boot_sector::verif::twin_bpb_accept_two_fats", ["C07"], "claims every accepted volume has 2 FATs", "bpb.fats == 2"),
@@ -282,9 +285,9 @@ for n in ("seek16_from_start", "seek16_from_c0", "seek16_from_c2", "seek12_from_
           "re-establishes the invariant (cursor cluster = chain[(offset-1)/cluster], previous cluster on a boundary); no write",
           FILE_B))
 for n in ("truncate16_at_zero", "truncate16_c0", "truncate16_c1", "truncate16_c2", "truncate12_c0", "truncate32_c1", "truncate32_at_zero"):
-    add(H("file::verif::" + n, ["C02", "C03", "C05"],
+    add(H("file::verif::" + n, ["C02", "C03", "C05", "C12", "C04"] if n.endswith("at_zero") else ["C02", "C03", "C05", "C12"],
           "File::truncate: size = offset, chain cut to ceil(offset/cluster) clusters (kept links intact, new tail EOC, rest freed, empty file owns no "
-          "cluster), other clusters untouched, FAT copies identical, no payload write",
+          "cluster), other clusters untouched, FAT copies identical, no payload write; the dirty bit is on the device whenever the size changed",
           FILE_B))
 add(
     H("file::verif::flush_writes_entry_then_flushes_device", ["C14", "C13", "C04"],
@@ -390,7 +393,9 @@ for n, what in (("fault_fs_alloc12", "alloc_cluster(zeroing)"), ("fault_fs_alloc
                 ("fault_fs_truncate12", "truncate_cluster_chain"), ("fault_fs_truncate32", "truncate_cluster_chain"), ("fault_fs_stats16", "stats() recount"),
                 ("fault_fs_status_flags32", "read_status_flags"), ("fault_fs_flush_info32", "flush_fs_info"), ("fault_fs_unmount32", "unmount"),
                 ("fault_fs_unmount16", "unmount"), ("fault_fs_set_dirty12", "set_dirty_flag")):
-    add(H("fs::verif::" + n, ["C09"], "single fault at the k-th device call of FileSystem::%s => Error::Io(device error); no fault => success; terminates" % what,
+    add(H("fs::verif::" + n, ["C09", "C12"] if n == "fault_fs_set_dirty12" else ["C09"],
+          "single fault at the k-th device call of FileSystem::%s => Error::Io(device error); no fault => success; terminates" % what
+          + ("; a failed status update is not remembered as done (cache = device)" if n == "fault_fs_set_dirty12" else ""),
           FAULT_FS, mode="path"))
 add(twin("fs::verif::twin_fault_fs_alloc_always_ok", ["C09"], "claims alloc_cluster succeeds at every fault position", "is_ok()", mode="path"))
 for n, what in (("fault_file_read16", "read starting on a cluster boundary"), ("fault_file_write_alloc12", "write that allocates a cluster"),
@@ -404,3 +409,119 @@ for nm in ("fits", "long", "one_char", "leading_dot", "non_ascii", "lossy"):
           "uniqueness lemma for a fixed name of this shape: after add_existing(e) the generated alias differs from e and is legal",
           "concrete name x every collision state (bitmaps, flag, hash) x every 11-byte existing entry; memchr stubs", stubs=True,
           tier="thorough" if nm == "one_char" else "quick", timeout=3600 if nm == "one_char" else 900))
+
+
+# ------------------------------------------------------------------ dirops.rs (directory-level steps on a windowed fixed root directory)
+# The 128-byte directory window is above CBMC's default field-sensitivity threshold (64): without this option constant
+# slot bytes are not propagated and every slot is explored as if it were arbitrary (47 s vs > 40 min for remove_file_step).
+# Used only where the window is mostly CONCRETE (namespace steps on a populated root): with arbitrary slot contents the
+# option turns every access into a 128-way case split and is slower (find_free_entries_spec: 214 s without, > 20 min with).
+FS128 = ("--max-field-sensitivity-array-size", "128")
+ASSUMPTIONS["C01"] = [
+    "directory-level obligations are one-step: a FileSystem is constructed directly over the windowed device (FAT12, fixed "
+    "root directory whose first four 32-byte slots are a real window of arbitrary bytes, everything behind reads as zero); "
+    "histories are covered only through the stated induction arguments",
+    "harnesses run in the reduced feature builds named per harness (bare = `std` only: 8.3 names, ASCII folding; noalloc = "
+    "fixed long-name buffer); the Dir/DirIter source is shared by all builds apart from the cfg'd long-name pieces",
+]
+add(
+    H("dir::verif::ops::find_free_entries_spec", ["C01", "C03", "C05"],
+      "Dir::find_free_entries(n): the position returned overwrites no live slot, leaves no gap in front of the end marker, is the "
+      "FIRST fit (an exact-fit run of deleted slots is reused), and no write is issued",
+      "fixed root, 4 slots whose kind-deciding bytes (first byte, attribute byte) are arbitrary, other bytes zero; zero tail; n in 1..=3",
+      build="bare", timeout=1500),
+    H("dir::verif::ops::find_free_entries_spec_all_bytes", ["C01", "C03", "C05"],
+      "same with all 128 bytes of the window arbitrary", "fixed root, 4 arbitrary slots (all 2^1024 contents) + zero tail, n in 1..=3",
+      build="bare", timeout=7200, tier="thorough"),
+)
+for s in range(4):
+    add(H("dir::verif::ops::diriter_step_from%d" % s, ["C01", "C08", "C13", "C17"],
+          "one DirIter::next() from slot %d: returns exactly the first slot the specification calls an entry (skipping deleted, "
+          "label and long-name slots, stopping at the end marker), with its storage position and a slot range starting right "
+          "behind the last skipped slot; never panics, never writes" % s,
+          "fixed root, 4 arbitrary slots (all contents), 8.3 build", build="bare", timeout=1200))
+    add(H("dir::verif::ops::diriter_step_lfn_from%d" % s, ["C17", "C08", "C19", "C01"],
+          "same step with long names: a long name is attached iff the slots directly in front of the entry are a well-formed run "
+          "for THIS entry (orders n|0x40..1, checksum of this short name); otherwise short-name fallback - no partial or "
+          "foreign long name, e.g. from a run that belonged to a deleted entry",
+          "fixed root, 4 arbitrary slots, long-name orders restricted to 0..=3 (with/without 0x40), fixed-buffer build",
+          build="noalloc", timeout=2400, tier="quick" if s == 2 else "thorough"))
+
+for b_ in ("alloc", "noalloc"):
+    add(H("dir::verif::lnb_twenty_slots_exact", ["C17", "C15", "C19", "C01"],
+          "a well-formed 20-slot run carrying the longest legal name decodes to exactly its 255 units iff the checksum matches "
+          "the short name (else nothing): the 20th slot is accepted, lengths 248..=255 are not truncated",
+          "concrete orders 0x54,19..1, symbolic units/checksum/short name, %s build; unwind 264" % b_, build=b_, timeout=2400,
+          tier="quick" if b_ == "noalloc" else "thorough"))
+
+EQ_CASES = ("sharp_s_upper", "sharp_s_lower", "sharp_s_self", "sharp_s_prefix", "mixed_expand", "ligature_fi", "dz_title", "dotted_i",
+            "ascii", "longer_query", "shorter_query", "e_acute")
+for b_ in ("alloc", "nounicode"):
+    for c_ in EQ_CASES:
+        add(H("dir_entry::verif::eq_case_" + c_, ["C15", "C19"],
+              "DirEntry::eq_name on a concrete name pair differing only by case (incl. length-changing Unicode mappings): matches with the "
+              "unicode feature, ASCII-only folding without it; never matches a proper prefix/extension; the alias always matches",
+              "concrete pair, %s build" % b_, build=b_, timeout=3600, tier="thorough"))
+add(H("dir_entry::verif::eq_name_ascii", ["C15", "C19"],
+      "eq_name on ASCII names == equality with the stored long name or the stored alias ignoring ASCII case, nothing else",
+      "2-unit long name, 2-byte alias, 1..=2-byte query, all ASCII values; build without unicode tables", build="nounicode",
+      tier="thorough", timeout=3600))
+
+add(
+    H("dir::verif::ops::write_entry_frame", ["C01", "C03", "C11"],
+      "Dir::write_entry: the slots taken were free, are exactly as many as needed, end with the given short entry at the reported "
+      "position; every other slot is byte-identical (no live entry overwritten, no gap behind the end marker)",
+      "fixed root, 4 slots of arbitrary kind, concrete 8.3 name, 8.3 build", build="bare", timeout=1500),
+    H("dir::verif::ops::write_entry_frame_lfn", ["C03", "C01", "C11", "C15", "C16"],
+      "same with a long name: the short entry is preceded by a well-formed long-name run carrying its checksum; an exact-fit hole "
+      "followed by a live entry is NOT used when the run plus the short entry do not fit",
+      "fixed root, 4 slots of arbitrary kind, concrete 2-character name (1 long-name slot + short entry), fixed-buffer build",
+      build="noalloc", timeout=2400),
+)
+NS_OPS = (("remove_file_step", ["C01", "C03", "C05", "C12"], "remove(\"a\") deletes exactly A's slot (first byte 0xE5), frees exactly A's chain in both FAT copies, sets the dirty bit first"),
+          ("remove_missing_step", ["C01"], "remove of a missing name: NotFound, nothing written"),
+          ("rename_invalid_name_no_side_effect", ["C01", "C15"], "rename to an unacceptable name: unsupported-character error and NO side effect (source entry intact, nothing written)"),
+          ("create_dir_invalid_name_no_side_effect", ["C01", "C15", "C05"], "create_dir with an unacceptable name: unsupported-character error and NO side effect (no cluster allocated, nothing written)"),
+          ("rename_file_step", ["C01", "C18"], "rename A -> C: one entry C with A's body, A gone, B / FAT untouched"),
+          ("rename_onto_existing_step", ["C01"], "rename onto an existing name: AlreadyExists, nothing written"))
+for nm_, props_, what_ in NS_OPS:
+    add(H("dir::verif::ops::" + nm_, props_, what_, "populated fixed root (A: 3 clusters, B: 1 cluster), concrete names, symbolic entry bodies, 8.3 build; memchr stubs",
+          build="bare", stubs=True, timeout=2400, cbmc_args=FS128))
+
+add(H("fs::verif::fs_options_builders", ["C13", "C18"],
+      "FsOptions builders set exactly the option they name (access-date updating off by default, untouched by strict() and by the "
+      "clock / code-page setters, in any order)", "all combinations of the two flags"))
+
+add(
+    H("file::verif::flush_retry_after_fault16", ["C14", "C09"],
+      "flush / single device fault at ANY call position / flush again: the retry succeeds and afterwards the new size is on the device at the "
+      "entry position, nothing is pending, device flushed after the last write (a failed write-back does not drop the pending entry)",
+      FAULT_FS, mode="path"),
+    H("file::verif::flush_then_drop_after_fault32", ["C14", "C09"],
+      "same with the handle dropped after the failed flush (the destructor is the retry)", FAULT_FS, mode="path"),
+)
+
+for b_ in ("alloc", "nounicode"):
+    add(H("dir::verif::copy_short_name_part_spec", ["C16", "C19"],
+          "copy_short_name_part == byte-level reference: spaces/dots dropped, listed ASCII copied with ASCII upper-casing, every other "
+          "character (every non-ASCII one, whatever its Unicode upper case) becomes one '_'; fits/lossy flags as specified",
+          "every valid UTF-8 string of <= 5 bytes into a 3-byte field, %s build" % b_, build=b_, timeout=1200))
+
+add(
+    H("dir::verif::ops::create_dir_dot_entries", ["C01", "C03", "C18", "C12", "C10"],
+      "create_dir in an empty root: new cluster = chain end in both FAT copies, zeroed before use, '.' -> itself, '..' -> 0 (root parent), "
+      "end marker behind them, provider stamps on the dot entries, dirty bit first, parent entry written into the root region",
+      "window = first four slots of the new directory's cluster (stale garbage before); symbolic clock; 8.3 build; memchr stubs",
+      build="bare", stubs=True, timeout=2400, cbmc_args=FS128),
+    H("dir::verif::ops::create_file_step", ["C01", "C16", "C18", "C12"],
+      "create_file of a new name takes the first free slot with an empty plain-file entry carrying the provider's stamps and leaves every other slot "
+      "and the FAT untouched; create_file of an existing name (any case) opens it and writes nothing",
+      "populated fixed root, concrete names, symbolic clock and entry bodies; 8.3 build; memchr stubs",
+      build="bare", stubs=True, timeout=2400, cbmc_args=FS128),
+)
+
+add(H("fs::verif::format_volume_regions12", ["C06", "C11", "C10"],
+      "format_volume over stale garbage: every byte of boot sector, BOTH FAT copies and the whole root directory region is written (watched "
+      "address), nothing behind the volume; root region zero, free part of each FAT copy zero, reserved FAT entries = media/EOC pattern, boot signature, "
+      "BPB geometry bytes as derived", "373-sector FAT12 volume (338 clusters, one padding entry), default options, two FAT copies; arbitrary watched address in the metadata area",
+      timeout=1800))
